@@ -67,7 +67,11 @@ load_python_module = Contract(
              'settings.cache_directory), file_io, import_names, '
              'get_cached_code_lines(inference_state.grammar, file_io.path), is_package)'],
     witness={}, replay=_replay_load, concrete_only=True, witness_library=[{}],
-    concrete_ensures=['result == EXPECTED', 'LOG.get("parse") == EXPECTED_PARSE',
+    concrete_ensures=['result[0] == EXPECTED[0] and result[1].get("code_lines") == EXPECTED[1]["code_lines"]',
+                      'result[1].get("file_io") is EXPECTED[1]["file_io"] and result[1].get("is_package") is False '
+                      'and tuple(result[1].get("string_names")) == ("toolmod",)',
+                      # the parse goes through the cache and gets the FILE (so that parso can compare mtimes)
+                      'LOG.get("parse", {}).get("file_io") is EXPECTED_PARSE["file_io"] and LOG["parse"].get("cache") is True',
                       'LOG.get("lines_for") == ("GRAMMAR", "/proj/toolmod.py")'],
     notes='parse / ModuleValue / get_cached_code_lines are abstract pure functions of their arguments',
 )
